@@ -75,6 +75,8 @@ def generate(ctx):
                      "tensor_kwargs": rng.choice([[], ["post_learning_rate"], ["post_time_constant", "pre_learning_rate"]])}
                 if d["reward"] == "tensor" and name in tr.THREE_FACTOR:
                     d["reduction"] = "sum"
+                if "Kernel" in name and rng.random() < 0.5:
+                    d["kernel"] = "osc"       # a user kernel whose sign changes with the time difference
                 yield d
     for d in c08.generate(ctx):
         if d.get("part") == "multicell":
@@ -154,7 +156,7 @@ def _routing(ctx, desc, pre, post, rewards):
     name = desc["trainer"]
     a, b = c08.SIGNS[desc["signs"]]
     hyper = {"lr_a": a, "lr_b": b, "trace_mode": desc["trace_mode"], "delayed": desc["delayed"], "lr_a3": desc["lr_a3"],
-             "lr_b3": desc["lr_b3"], "tensor_kwargs": desc["tensor_kwargs"]}
+             "lr_b3": desc["lr_b3"], "tensor_kwargs": desc["tensor_kwargs"], "kernel": desc.get("kernel")}
     red = desc["reduction"]
     try:
         h = tr.Harness(name, desc["conn"], dt=desc["dt"], B=desc["B"], delay_steps=desc["delay"], seed=desc["seed"],
